@@ -136,6 +136,8 @@ def run_case(R, level, variant, op, auth_pw, priv_pw, engine_id, ctx_name, boots
                 return resp  # the discovery goes through
             return None if how == "lost" else b"\x30\x03\x02\x01\x03"
 
+        # (the client's own user has talked to the engine before, successfully)
+        rig.outcome(lambda: drive(c.get(OID(BASE + (2, 0)))))
         w.seam.responder = unlucky
         try:
             with c.reconfigure(credentials=_V3("admin", _Auth(a_auth, hashname), _Priv(a_priv, variant))):
